@@ -3,7 +3,7 @@
 //! A case carries an abstract schema description and a list of export option sets:
 //!
 //! ```text
-//! (sdl (optsets OPTS…) (dyn|static (roots "Q" M) (T…) (ddefs DDEF…)))
+//! (sdl (optsets OPTS…) (dyn|static|static2|static3|static4 (roots "Q" M) (T…) (ddefs DDEF…)))
 //! OPTS := (opts sorted_fields sorted_arguments sorted_enum_items prefer_single_line include_specified_by
 //!               federation compose_directive use_space_ident indent_width)
 //! A    := (a DESC DEP INACC (TAG…) (DIR…))      DESC := - | "text"   DEP := - | (dep) | (dep "reason")
@@ -18,6 +18,8 @@
 //! `dyn`: the schema is built from the description with `async_graphql::dynamic::*` (arbitrary
 //! texts).  `static`: the fixed derive-built schema below is exported and the description in the
 //! case (a constant of this file) is what the Lean side believes the derive macros registered.
+//! `static3` / `static4`: a derive-built type skeleton (`mod fixed3`) whose custom directive
+//! definitions (incl. the `composable` URL) and applications are taken from the case.
 //! Output per option set: the SDL text, and the crate's own `parse_schema` verdict on it with the
 //! document it yields in canonical form.
 
@@ -1104,6 +1106,23 @@ fn gen_schema(rng: &mut Rng, dist: &mut Dist) -> Sexp {
     let ifaces = names("N", rng.below(3), rng);
     let objects = names("O", rng.below(4), rng);
     let unions = if objects.is_empty() { vec![] } else { names("U", rng.below(2), rng) };
+    // a user type named `Any` (the name of a scalar a federation export leaves out)
+    let (mut scalars, mut enums, mut inputs, mut ifaces, mut objects, mut unions) = (scalars, enums, inputs, ifaces, objects, unions);
+    if rng.chance(1, 8) {
+        if !scalars.is_empty() && rng.chance(2, 3) {
+            dist.hit("scalar_named_Any");
+            scalars[0] = "Any".to_string();
+        } else {
+            let kinds: Vec<&mut Vec<String>> =
+                vec![&mut enums, &mut inputs, &mut ifaces, &mut objects, &mut unions].into_iter().filter(|v| !v.is_empty()).collect();
+            if !kinds.is_empty() {
+                dist.hit("non_scalar_named_Any");
+                let mut kinds = kinds;
+                let k = rng.below(kinds.len());
+                kinds[k][0] = "Any".to_string();
+            }
+        }
+    }
 
     let mut leaf: Vec<String> = vec!["Int".into(), "String".into(), "Boolean".into(), "ID".into(), "Float".into()];
     leaf.extend(scalars.iter().cloned());
